@@ -135,7 +135,7 @@ pub enum T {
     IsEmpty(Box<T>),
     Any(Box<T>, C),
     All(Box<T>, C),
-    /// `foreach SRC as $x (init; UPDATE; EXTRACT)`; update must have exactly one output
+    /// `foreach SRC as $x (init; UPDATE; EXTRACT)`; update may have any number of outputs
     Foreach(Box<T>, String, i64, Box<T>, Option<Box<T>>),
     Reduce(Box<T>, String, i64, Box<T>),
     Arr(Box<T>),
@@ -775,77 +775,95 @@ fn try_catch(mut s: Stream, handler: Option<(T, Env)>) -> Stream {
     }))
 }
 
-/// foreach / reduce with a single-output update: the source is pulled on demand.
-fn fold(mut src: Stream, env: Env, x: String, init: V, upd: T, ext: Option<T>, reduce: bool) -> Stream {
-    let mut state = init;
-    let mut pending: Option<Stream> = None;
-    let mut done = false;
-    Box::new(std::iter::from_fn(move || loop {
-        if done {
-            return None;
+/// The outputs of a fold's source: forced on demand, each element (and its effects) once,
+/// shared by all branches of the fold (the manual's `x1, ..., xn`).
+struct Memo {
+    src: RefCell<Stream>,
+    /// forced elements
+    vals: RefCell<Vec<V>>,
+    /// how the source ended, once known: None = normal end
+    end: RefCell<Option<Option<X>>>,
+}
+
+enum Item {
+    Val(V),
+    End,
+    Err(X),
+}
+
+impl Memo {
+    /// element `i` together with the effects its (first) forcing performs
+    fn get(&self, i: usize) -> (Vec<Step>, Item) {
+        if let Some(v) = self.vals.borrow().get(i) {
+            return (vec![], Item::Val(v.clone()));
         }
-        if let Some(p) = pending.as_mut() {
-            match p.next() {
-                Some(Step::Err(e)) => {
-                    done = true;
-                    return Some(Step::Err(e));
+        if let Some(e) = &*self.end.borrow() {
+            return (vec![], e.clone().map_or(Item::End, Item::Err));
+        }
+        let mut effects = Vec::new();
+        loop {
+            match self.src.borrow_mut().next() {
+                None => {
+                    *self.end.borrow_mut() = Some(None);
+                    return (effects, Item::End);
                 }
-                Some(s) => return Some(s),
-                None => pending = None,
+                Some(Step::Out(v)) => {
+                    self.vals.borrow_mut().push(v.clone());
+                    return (effects, Item::Val(v));
+                }
+                Some(Step::Err(x)) => {
+                    *self.end.borrow_mut() = Some(Some(x.clone()));
+                    return (effects, Item::Err(x));
+                }
+                Some(e) => effects.push(e),
             }
         }
-        match src.next() {
-            None => {
-                done = true;
-                return reduce.then(|| Step::Out(state.clone()));
-            }
-            Some(Step::Out(v)) => {
-                // run the update to completion (effects are buffered in order)
-                let e2 = env.bind(&x, v).with_dot(state.clone());
-                let mut buf = Vec::new();
-                let mut new_state = None;
-                for s in eval(&upd, &e2) {
-                    match s {
-                        Step::Out(s) => {
-                            new_state = Some(s);
-                            break;
-                        }
-                        Step::Err(e) => {
-                            buf.push(Step::Err(e));
-                            break;
-                        }
-                        e => buf.push(e),
-                    }
+    }
+}
+
+/// foreach / reduce as the manual defines them:
+/// `init | (x1 as $x | update | (project, (x2 as $x | update | (project, ...))))`,
+/// the source being pulled on demand; `update` may have any number of outputs.
+fn fold(src: Stream, env: Env, x: String, init: V, upd: T, ext: Option<T>, reduce: bool) -> Stream {
+    let memo = Rc::new(Memo { src: RefCell::new(src), vals: RefCell::new(Vec::new()), end: RefCell::new(None) });
+    fold_rec(memo, 0, init, env, x, upd, ext, reduce)
+}
+
+#[allow(clippy::too_many_arguments)]
+fn fold_rec(memo: Rc<Memo>, i: usize, state: V, env: Env, x: String, upd: T, ext: Option<T>, reduce: bool) -> Stream {
+    lazy(move || {
+        let (effects, item) = memo.get(i);
+        match item {
+            Item::End => {
+                let mut v = effects;
+                if reduce {
+                    v.push(Step::Out(state));
                 }
-                match new_state {
-                    Some(s) => {
-                        state = s.clone();
-                        if !reduce {
-                            let out: Stream = match &ext {
-                                None => once(Step::Out(s)),
-                                Some(t) => eval(t, &e2.with_dot(s)),
-                            };
-                            pending = Some(Box::new(buf.into_iter().chain(out)));
+                steps(v)
+            }
+            Item::Err(e) => {
+                let mut v = effects;
+                v.push(Step::Err(e));
+                steps(v)
+            }
+            Item::Val(v) => {
+                let e2 = env.bind(&x, v).with_dot(state);
+                let ups = eval(&upd, &e2);
+                chain(steps(effects), move || {
+                    flat(ups, move |s2| {
+                        let proj: Stream = if reduce {
+                            empty()
                         } else {
-                            pending = Some(Box::new(buf.into_iter()));
-                        }
-                    }
-                    None => {
-                        let errored = matches!(buf.last(), Some(Step::Err(_)));
-                        pending = Some(Box::new(buf.into_iter()));
-                        if !errored {
-                            // an update without output: jq semantics differ between versions;
-                            // the generator does not produce such updates
-                            done = false;
-                        }
-                    }
-                }
+                            match &ext {
+                                None => once(Step::Out(s2.clone())),
+                                Some(t) => eval(t, &e2.with_dot(s2.clone())),
+                            }
+                        };
+                        let (memo, env, x, upd, ext) = (memo.clone(), env.clone(), x.clone(), upd.clone(), ext.clone());
+                        chain(proj, move || fold_rec(memo, i + 1, s2, env, x, upd, ext, reduce))
+                    })
+                })
             }
-            Some(Step::Err(e)) => {
-                done = true;
-                return Some(Step::Err(e));
-            }
-            Some(e) => return Some(e),
         }
-    }))
+    })
 }
